@@ -177,7 +177,29 @@ def rule_params_forwarded_(ctx: Ctx, rep: Report) -> None:
     rule_params_forwarded(ctx, rep, "C13.params_forwarded", ('btclib.mnemonic', 'btclib.bip85'), 60)
 
 
+BIP85_LANGUAGES = {"en": 0, "ja": 1, "ko": 2, "es": 3, "zh": 4, "zh_tw": 5, "fr": 6, "it": 7, "cs": 8, "pt": 9}  # BIP85, "BIP39" application: language codes (4 = Chinese simplified, 5 = traditional)
+
+
+def rule_bip85_languages(ctx: Ctx, rep: Report) -> None:
+    """C13.bip85_languages: the language enters the BIP85 path as BIP85's own
+    code (0 English .. 9 Portuguese; 4 is Chinese simplified, 5 traditional).
+    A table that permutes two rows still yields valid sentences in the right
+    language -- from another path, so not the child the BIP defines."""
+    rule = "C13.bip85_languages"
+    t = ctx.const("btclib.bip85", "_LANGUAGE_INDEXES")
+    if not isinstance(t, dict):
+        rep.unknown(rule, "_LANGUAGE_INDEXES", "btclib/bip85.py:1", "the table does not fold")
+        return
+    for lang, code in sorted(BIP85_LANGUAGES.items()):
+        if lang in t:
+            rep.ob(rule, lang, t[lang] == code, "btclib/bip85.py:1", f"{lang} -> {t[lang]}" + ("" if t[lang] == code else f": BIP85 numbers it {code}"))
+    extra = sorted(set(t) - set(BIP85_LANGUAGES))
+    rep.ob(rule, "no_unnumbered_language", not extra, "btclib/bip85.py:1", f"languages BIP85 does not number: {extra}" if extra else "every row is one of BIP85's ten")
+    rep.floor(rule, 8)
+
+
 RULES = [
+    ("C13.bip85_languages", rule_bip85_languages),
     ("C13.params_forwarded", rule_params_forwarded_),
     ("C13.bip85_input", rule_bip85_input),
     ("C13.lang_pick", rule_lang_pick),
@@ -186,6 +208,8 @@ RULES = [
 ]
 
 CONTROLS = [
+    {"rule": "C13.bip85_languages", "name": "the two Chinese rows are transposed", "module": "btclib.bip85",
+     "edit": lambda ctx: M.sub_module_expr(ctx, "btclib.bip85", lambda n: isinstance(n, ast.Constant) and n.value == 4 and isinstance(parent(n), ast.Dict) and len(parent(n).keys) == 10, "5")},
     {"rule": "C13.bip85_input", "name": "the key's leading zeros are stripped", "module": "btclib.bip85",
      "edit": lambda ctx: M.sub_expr(ctx, "btclib.bip85._entropy_from_der_path", M.is_text("xkey.key[1:]"), "xkey.key.lstrip(b'\\x00')")},
     {"rule": "C13.lang_pick", "name": "the first candidate is answered instead of the valid one", "module": "btclib.mnemonic.bip39",
